@@ -206,6 +206,7 @@ pub open spec fn imin(a: int, b: int) -> int { if a <= b { a } else { b } }
 
 // ---- (a) to_array_bins: finalisation of a popped bin, inside the interval loop ----
 //@extract fn pybigtools/src/lib.rs to_array_bins
+//@rule R16
 //@presub /\A.*?let front = bin_data\.pop_front\(\)\.unwrap\(\);\s*let bin = front\.0;\s*(match summary \{.*?)\n\s*\} else \{\s*break;.*\Z/ => fn finish_bin_bwb_loop(front3: Option<(i32, f64)>, summary: Summary, missing: f64, bin_size: f64) -> f64 {\n    let mut r__: f64 = unset_f64();\n    \1\n    r__\n} min=1 count=1
 //@presub /\s+\.(?=[a-z_0-9])/ => . min=0
 //@presub /\bfront\.3\b/ => front3 min=0
@@ -228,6 +229,7 @@ pub open spec fn imin(a: int, b: int) -> int { if a <= b { a } else { b } }
 
 // ---- (a) to_array_bins: finalisation of a popped bin, the closing drain loop ----
 //@extract fn pybigtools/src/lib.rs to_array_bins
+//@rule R16
 //@presub /\A.*while let Some\(front\) = bin_data\.pop_front\(\) \{\s*let bin = front\.0;\s*(match summary \{.*?)\n\s*\}\s*Ok\(\(\)\)\s*\}\s*\Z/ => fn finish_bin_bwb_drain(front3: Option<(i32, f64)>, summary: Summary, missing: f64, bin_size: f64) -> f64 {\n    let mut r__: f64 = unset_f64();\n    \1\n    r__\n} min=1 count=1
 //@presub /\s+\.(?=[a-z_0-9])/ => . min=0
 //@presub /\bfront\.3\b/ => front3 min=0
@@ -250,6 +252,7 @@ pub open spec fn imin(a: int, b: int) -> int { if a <= b { a } else { b } }
 
 // ---- (a) to_array_zoom: finalisation of a popped bin, inside the interval loop ----
 //@extract fn pybigtools/src/lib.rs to_array_zoom
+//@rule R16
 //@presub /\A.*?let front = bin_data\.pop_front\(\)\.unwrap\(\);\s*let bin = front\.0;\s*(match summary \{.*?)\n\s*\} else \{\s*break;.*\Z/ => fn finish_bin_bwz_loop(front3: Option<(i32, f64)>, summary: Summary, missing: f64, bin_size: f64) -> f64 {\n    let mut r__: f64 = unset_f64();\n    \1\n    r__\n} min=1 count=1
 //@presub /\s+\.(?=[a-z_0-9])/ => . min=0
 //@presub /\bfront\.3\b/ => front3 min=0
@@ -272,6 +275,7 @@ pub open spec fn imin(a: int, b: int) -> int { if a <= b { a } else { b } }
 
 // ---- (a) to_array_zoom: finalisation of a popped bin, the closing drain loop ----
 //@extract fn pybigtools/src/lib.rs to_array_zoom
+//@rule R16
 //@presub /\A.*while let Some\(front\) = bin_data\.pop_front\(\) \{\s*let bin = front\.0;\s*(match summary \{.*?)\n\s*\}\s*Ok\(\(\)\)\s*\}\s*\Z/ => fn finish_bin_bwz_drain(front3: Option<(i32, f64)>, summary: Summary, missing: f64, bin_size: f64) -> f64 {\n    let mut r__: f64 = unset_f64();\n    \1\n    r__\n} min=1 count=1
 //@presub /\s+\.(?=[a-z_0-9])/ => . min=0
 //@presub /\bfront\.3\b/ => front3 min=0
@@ -294,6 +298,7 @@ pub open spec fn imin(a: int, b: int) -> int { if a <= b { a } else { b } }
 
 // ---- (b) to_entry_array_bins: a new bin enters the deque ----
 //@extract fn pybigtools/src/lib.rs to_entry_array_bins
+//@rule R16
 //@presub /\A.*?(bin_data\.push_back\(\(.*?\)\);).*\Z/ => fn new_bin_bbb_new(bin: usize, bin_start: i32, bin_end: i32, missing: f64, bin_data: &mut VecDeque<(usize, i32, i32, Vec<i32>, Vec<f64>)>) {\n    \1\n} min=1 count=1
 //@rule R12c
 //@sub /vec!\[([^;\]]+); ([^\]]+)\]/ => vec_of(\1, \2) min=0
@@ -317,6 +322,7 @@ pub open spec fn imin(a: int, b: int) -> int { if a <= b { a } else { b } }
 
 // ---- (b) to_entry_array_zoom: a new bin enters the deque ----
 //@extract fn pybigtools/src/lib.rs to_entry_array_zoom
+//@rule R16
 //@presub /\A.*?(bin_data\.push_back\(\(.*?\)\);).*\Z/ => fn new_bin_bbz_new(bin: usize, bin_start: i32, bin_end: i32, missing: f64, bin_data: &mut VecDeque<(usize, i32, i32, Vec<i32>, Vec<f64>)>) {\n    \1\n} min=1 count=1
 //@rule R12c
 //@sub /vec!\[([^;\]]+); ([^\]]+)\]/ => vec_of(\1, \2) min=0
@@ -340,6 +346,7 @@ pub open spec fn imin(a: int, b: int) -> int { if a <= b { a } else { b } }
 
 // ---- (b) to_entry_array_bins: finalisation of a popped bin over its per-base cells, inside the interval loop ----
 //@extract fn pybigtools/src/lib.rs to_entry_array_bins
+//@rule R16
 //@presub /\A.*?let front = bin_data\.pop_front\(\)\.unwrap\(\);\s*let bin = front\.0;\s*(match summary \{.*?)\n\s*\} else \{\s*break;.*\Z/ => fn finish_entry_bin_bbb_loop(front3: Vec<i32>, front4: Vec<f64>, summary: Summary, missing: f64, bin_size: f64) -> f64 {\n    let mut r__: f64 = unset_f64();\n    \1\n    r__\n} min=1 count=1
 //@presub /\s+\.(?=[a-z_0-9])/ => . min=0
 //@presub /\bv\[bin\] = / => r__ =  min=0
@@ -375,6 +382,7 @@ pub open spec fn imin(a: int, b: int) -> int { if a <= b { a } else { b } }
 
 // ---- (b) to_entry_array_bins: finalisation of a popped bin over its per-base cells, the closing drain loop ----
 //@extract fn pybigtools/src/lib.rs to_entry_array_bins
+//@rule R16
 //@presub /\A.*while let Some\(front\) = bin_data\.pop_front\(\) \{\s*let bin = front\.0;\s*(match summary \{.*?)\n\s*\}\s*Ok\(\(\)\)\s*\}\s*\Z/ => fn finish_entry_bin_bbb_drain(front3: Vec<i32>, front4: Vec<f64>, summary: Summary, missing: f64, bin_size: f64) -> f64 {\n    let mut r__: f64 = unset_f64();\n    \1\n    r__\n} min=1 count=1
 //@presub /\s+\.(?=[a-z_0-9])/ => . min=0
 //@presub /\bv\[bin\] = / => r__ =  min=0
@@ -410,6 +418,7 @@ pub open spec fn imin(a: int, b: int) -> int { if a <= b { a } else { b } }
 
 // ---- (b) to_entry_array_zoom: finalisation of a popped bin over its per-base cells, inside the interval loop ----
 //@extract fn pybigtools/src/lib.rs to_entry_array_zoom
+//@rule R16
 //@presub /\A.*?let front = bin_data\.pop_front\(\)\.unwrap\(\);\s*let bin = front\.0;\s*(match summary \{.*?)\n\s*\} else \{\s*break;.*\Z/ => fn finish_entry_bin_bbz_loop(front3: Vec<i32>, front4: Vec<f64>, summary: Summary, missing: f64, bin_size: f64) -> f64 {\n    let mut r__: f64 = unset_f64();\n    \1\n    r__\n} min=1 count=1
 //@presub /\s+\.(?=[a-z_0-9])/ => . min=0
 //@presub /\bv\[bin\] = / => r__ =  min=0
@@ -445,6 +454,7 @@ pub open spec fn imin(a: int, b: int) -> int { if a <= b { a } else { b } }
 
 // ---- (b) to_entry_array_zoom: finalisation of a popped bin over its per-base cells, the closing drain loop ----
 //@extract fn pybigtools/src/lib.rs to_entry_array_zoom
+//@rule R16
 //@presub /\A.*while let Some\(front\) = bin_data\.pop_front\(\) \{\s*let bin = front\.0;\s*(match summary \{.*?)\n\s*\}\s*Ok\(\(\)\)\s*\}\s*\Z/ => fn finish_entry_bin_bbz_drain(front3: Vec<i32>, front4: Vec<f64>, summary: Summary, missing: f64, bin_size: f64) -> f64 {\n    let mut r__: f64 = unset_f64();\n    \1\n    r__\n} min=1 count=1
 //@presub /\s+\.(?=[a-z_0-9])/ => . min=0
 //@presub /\bv\[bin\] = / => r__ =  min=0
@@ -480,6 +490,7 @@ pub open spec fn imin(a: int, b: int) -> int { if a <= b { a } else { b } }
 
 // ---- (c) to_entry_array_bins: one entry meets one bin: the two per-cell update loops ----
 //@extract fn pybigtools/src/lib.rs to_entry_array_bins
+//@rule R16
 //@presub /\A.*?\n(\s*let overlap_start = .*?for i in &mut covered\[range\] \{.*?\n\s*\})\n\s*\}\n\s*\}\n\s*while let Some\(front\) = bin_data\.pop_front\(\) \{.*\Z/ => fn bump_cells_bbb(bin_start: &i32, bin_end: &i32, interval_start: i32, interval_end: i32, covered: &mut Vec<i32>, data: &mut Vec<f64>) {\n\1\n} min=1 count=1
 //@rule R5
 //@sub /for i in &mut (\w+)\[range(?:\.clone\(\))?\] \{/ => slice_bounds(\1, &range);\n            for k__ in range.start..range.end {\n                let i = cell_mut(\1, k__); min=0
@@ -542,6 +553,7 @@ pub open spec fn imin(a: int, b: int) -> int { if a <= b { a } else { b } }
 // `let (c, v) = data.get_or_insert_with(|| INIT);` -> the accumulator is copied out (`INIT` when absent), `c` / `v` borrow the
 // copy's two fields, and the copy is written back after the carved text (same effect as updating through the reference).
 //@extract fn pybigtools/src/lib.rs to_array_bins
+//@rule R16
 //@presub /\A.*?\n(\s*let \(c, v\) = data\.get_or_insert_with\(.*?)\n\s*\}\n\s*\}\n\s*while let Some\(front\) = bin_data\.pop_front\(\) \{.*\Z/ => fn accumulate_bwb(data: &mut Option<(i32, f64)>, summary: Summary, bin_start: &i32, bin_end: &i32, interval_start: i32, interval_end: i32, interval: &Value) {\n\1\n            *data = Some(t__);\n} min=1 count=1
 //@presub /let \(c, v\) = data\.get_or_insert_with\(\|\| \{(.*?)\n\s*\}\);/ => let mut t__: (i32, f64) = match *data { Some(t) => t, None => {\1\n            } };\n            let c = &mut t__.0;\n            let v = &mut t__.1; min=1 count=1
 //@rule R5
